@@ -14,7 +14,10 @@ RULE = (
     "Part (a) exception-type monitor: every string of length <= 4 (quick) / <= 5 (thorough) over {: / ? # @ [ ] % . 1 a}, a list of hostile shapes "
     "(empty brackets, lone/doubled delimiters, empty hosts with port/userinfo under every scheme), and huge inputs (1 MiB components, 100 000 "
     "segments, 5000-digit ports, 64 KiB hosts) through both constructor modes; on every accepted URL every accessor, nullary method and 30 modifier "
-    "calls; every object a modifier or build() returns is str()-ed.  Anything raised that is not a ValueError or TypeError instance, or a str() failure on "
+    "calls; every object a modifier or build() returns is str()-ed.  ARGUMENT kernel: every string of length <= 3 (quick) / <= 4 (thorough) over the "
+    "same alphabet (one further length sampled) plus dot-segment, surrogate and 300-character texts as EACH str argument of build() (scheme, host, authority, "
+    "user, password, path, query_string, fragment, query key/value; with host, with authority, without; both encoded modes) and of every modifier, /, % and "
+    "joinpath on 13 receivers (with/without authority, empty, rootless, opaque, encoded=True dot segments).  Anything raised that is not a ValueError or TypeError instance, or a str() failure on "
     "a returned object whose receiver could be rendered, is a violation; a worker dying on a signal is a violation.  Part (b) fault enumeration on a build "
     "of the extension whose PyMem_Malloc/Realloc/Free go through an allocation shim: for output sizes around 8192/16384/24576 and 100 000 x every "
     "quoter configuration, request k = 0,1,2,... of the call is failed until a run completes without injection, and independently "
@@ -46,6 +49,8 @@ def plan(tier, seed):
     n = 16
     for s in range(n):
         jobs.append({"variant": "c" if s % 2 else "py", "part": "shapes", "shard": s, "nshards": n, "params": {"maxlen": 5 if thorough else 4}})
+    for s in range(n):
+        jobs.append({"variant": "py" if s % 2 else "c", "part": "args", "shard": s, "nshards": n, "params": {"maxlen": 4 if thorough else 3}})
     jobs.append({"variant": "c", "part": "huge", "params": {}})
     jobs.append({"variant": "py", "part": "huge", "params": {"small": True}})
     fv = "asan" if thorough else "shim"
@@ -211,6 +216,91 @@ def run_shapes(ctx):
                     if not ok2:
                         ctx.fail("returned_object_unrenderable", {"at": "build", "scheme": sch, "host": host, "port": repr(port)}, f"str(build(...)) raised {type(s2).__name__}: {s2}")
     ctx.notes["kernel_total"] = i
+
+
+ARG_BASES = ["http://h/a/b", "http://h", "//h", "//u:p@h:81/p.x/?q=1#f", "/a/b", "a", "", "foo:a", "foo://", "http://h/a/", "http://[::1]:0/x.y"]
+
+
+def arg_calls(URL, bases, t):
+    """(tag, thunk) for text t supplied as each documented str argument of each entry point."""
+    out = []
+    for hkw, htag in (({"host": "h"}, "host"), ({"authority": "u@h:1"}, "authority"), ({}, "nohost")):
+        for sch in ("http", "", "foo"):
+            out.append((f"build[{htag},{sch}](path)", lambda hkw=hkw, sch=sch: URL.build(scheme=sch, path=t, **hkw)))
+            out.append((f"build[{htag},{sch}](path,encoded)", lambda hkw=hkw, sch=sch: URL.build(scheme=sch, path=t, encoded=True, **hkw)))
+        out.append((f"build[{htag}](query_string)", lambda hkw=hkw: URL.build(scheme="http", query_string=t, **hkw)))
+        out.append((f"build[{htag}](fragment)", lambda hkw=hkw: URL.build(scheme="http", fragment=t, **hkw)))
+        out.append((f"build[{htag}](query)", lambda hkw=hkw: URL.build(scheme="http", query={t: t}, **hkw)))
+    for sch in ("http", "", "foo"):
+        out.append((f"build[{sch}](host)", lambda sch=sch: URL.build(scheme=sch, host=t, path="/p")))
+        out.append((f"build[{sch}](host,port)", lambda sch=sch: URL.build(scheme=sch, host=t, port=80)))
+        out.append((f"build[{sch}](authority)", lambda sch=sch: URL.build(scheme=sch, authority=t, path="/p")))
+        out.append((f"build[{sch}](authority,encoded)", lambda sch=sch: URL.build(scheme=sch, authority=t, encoded=True)))
+        out.append((f"build[{sch}](user)", lambda sch=sch: URL.build(scheme=sch, host="h", user=t)))
+        out.append((f"build[{sch}](password)", lambda sch=sch: URL.build(scheme=sch, host="h", password=t)))
+        out.append((f"build[{sch}](user,nohost)", lambda sch=sch: URL.build(scheme=sch, user=t, path="/p")))
+    out.append(("build(scheme)", lambda: URL.build(scheme=t, host="h")))
+    out.append(("build(scheme,nohost)", lambda: URL.build(scheme=t, path="p")))
+    for bi, b in enumerate(bases):
+        for m in ("with_scheme", "with_user", "with_password", "with_host", "with_path", "with_query", "extend_query", "update_query", "without_query_params", "with_fragment", "with_name", "with_suffix", "joinpath"):
+            out.append((f"{m}@{bi}", lambda b=b, m=m: getattr(b, m)(t)))
+        out.append((f"with_path(encoded)@{bi}", lambda b=b: b.with_path(t, encoded=True)))
+        out.append((f"with_host(encoded)@{bi}", lambda b=b: b.with_host(t, encoded=True) if False else b.with_host(t)))
+        out.append((f"joinpath(encoded)@{bi}", lambda b=b: b.joinpath(t, t, encoded=True)))
+        out.append((f"joinpath2@{bi}", lambda b=b: b.joinpath("x", t, "")))
+        out.append((f"with_query(map)@{bi}", lambda b=b: b.with_query({t: [t, 1]})))
+        out.append((f"with_name(kw)@{bi}", lambda b=b: b.with_name(t, keep_query=True, keep_fragment=True)))
+        out.append((f"with_suffix(kw)@{bi}", lambda b=b: b.with_suffix("." + t, keep_query=True, keep_fragment=True)))
+        out.append((f"div@{bi}", lambda b=b: b / t))
+        out.append((f"mod@{bi}", lambda b=b: b % t))
+        out.append((f"mod(map)@{bi}", lambda b=b: b % {t: t}))
+    return out
+
+
+def run_args(ctx):
+    from yarl import URL
+
+    bases = [URL(b) for b in ARG_BASES] + [URL("http://h/%2e./a/../b", encoded=True), URL("//h:x/p", encoded=True) if False else URL("x:y/../z", encoded=True)]
+    maxlen = ctx.params["maxlen"]
+    i = 0
+    extra = ["..", "./", "a/..", "/..", "../a", "%2e", "%2E%2e/", ".%2e", "\ud800", ".\ud800.", "é", " ", "\x00", "\t.", "..;", "a" * 300, "." * 300, "/" * 300, "1" * 300, ":" * 64, "[::1]", "[v1.x]", "::1", "1.2.3.4", "%25", "%zz"]
+    texts = ("".join(t) for L in range(0, maxlen + 2) for t in itertools.product(ALPHA, repeat=L))
+    n4 = len(ALPHA) ** maxlen
+    for t in itertools.chain(extra, texts):
+        i += 1
+        if len(t) > maxlen and t not in extra:
+            # one length beyond the complete kernel is sampled
+            if (i * 2654435761 + ctx.seed) % 97 != 0:
+                continue
+        if not ctx.mine(i):
+            continue
+        shape = "".join(sorted(set(t)))[:8] if len(t) <= maxlen + 1 else "extra"
+        for tag, fn in arg_calls(URL, bases, t):
+            ok, v = call(fn)
+            ctx.count("arg_calls")
+            if not ok:
+                ctx.ev(("arg", tag.split("@")[0], shape, type(v).__name__))
+                if not allowed(v):
+                    ctx.fail("exception_type", {"at": tag, "arg": t if len(t) < 80 else t[:40] + "...(%d)" % len(t), "bases": ARG_BASES}, f"{tag} with {t[:60]!r} raised {type(v).__name__}: {v}")
+                continue
+            ctx.ev(("arg", tag.split("@")[0], shape, "ok"))
+            if isinstance(v, URL):
+                ok2, s2 = call(str, v)
+                if not ok2 and "encoded" in tag:
+                    # encoded=True hands the text over unvalidated: a garbage port is the caller's responsibility (ASSUMPTIONS)
+                    ctx.count("encoded_garbage_unrenderable")
+                    continue
+                if not ok2:
+                    ctx.fail("returned_object_unrenderable", {"at": tag, "arg": t[:80]}, f"str({tag}({t[:60]!r})) raised {type(s2).__name__}: {s2}")
+                    continue
+                # everything readable on the returned object
+                for a in ("host", "port", "path", "parts", "name", "suffixes", "parent", "query_string", "authority", "human_repr"):
+                    ok3, v3 = call(lambda: getattr(v, a)() if a == "human_repr" else getattr(v, a))
+                    if not ok3 and not allowed(v3):
+                        ctx.fail("exception_type", {"at": tag + "." + a, "arg": t[:80]}, f"{tag}({t[:60]!r}).{a} raised {type(v3).__name__}: {v3}")
+        if i % 499 == 0:
+            ctx.sample({"at": "args", "arg": t[:80]})
+    ctx.notes["arg_texts"] = i
 
 
 def run_huge(ctx):
@@ -426,7 +516,7 @@ def run(ctx):
             ctx.notes["replay"] = "fault/structured case: " + repr(c)
             ctx.ev(("replay",))
         return
-    {"shapes": run_shapes, "huge": run_huge, "faults": run_faults}[ctx.part](ctx)
+    {"shapes": run_shapes, "args": run_args, "huge": run_huge, "faults": run_faults}[ctx.part](ctx)
 
 
 def finalize(merged, results, tier):
@@ -434,6 +524,8 @@ def finalize(merged, results, tier):
     c = merged["counters"]
     if c.get("urls_exercised", 0) == 0:
         unmet.append("no accepted URL was exercised")
+    if c.get("arg_calls", 0) == 0:
+        unmet.append("the argument kernel made no call")
     if c.get("shim_injected", 0) == 0:
         unmet.append("the allocation shim never injected a failure (heap path of the writer not reached)")
     if c.get("nomem_injected", 0) == 0:
